@@ -72,7 +72,7 @@ func localHelpers(fns []*ssa.Function, rename map[string]string) map[*ssa.Functi
 				return
 			}
 			_, tn := recvTypeName(callee)
-			if !named["call "+tn+"."+callee.Name()] {
+			if !named["call "+tn+"."+pinName(callee)] {
 				out[callee] = true
 			}
 		})
@@ -123,7 +123,7 @@ func featuresInl(p *Prog, fns []*ssa.Function, rename map[string]string, inline 
 					pk := fnTypesPkg(callee)
 					if pk != nil && strings.HasPrefix(pk.Path(), modPath) && !inline[callee] {
 						_, tn := recvTypeName(callee)
-						add("call " + tn + "." + callee.Name())
+						add("call " + tn + "." + pinName(callee))
 					}
 				} else if b, ok := x.Call.Value.(*ssa.Builtin); ok {
 					add("builtin " + b.Name())
@@ -425,7 +425,7 @@ func runC06(c *Ctx) {
 				diffs = append(diffs, "only in "+t.b.Name()+": "+d)
 			}
 		}
-		c.check(len(diffs) == 0, t.a, "twin "+t.b.Name(), t.a.Pos(), fmt.Sprintf("%d shared features", len(fa)), "the blocking and asynchronous variants disagree ("+strings.Join(diffs, "; ")+"): the two APIs no longer deliver the same sequence for the same bytes")
+		c.check(len(diffs) == 0, t.a, "twin "+pinName(t.b), t.a.Pos(), fmt.Sprintf("%d shared features", len(fa)), "the blocking and asynchronous variants disagree ("+strings.Join(diffs, "; ")+"): the two APIs no longer deliver the same sequence for the same bytes")
 	}
 }
 
